@@ -2,7 +2,7 @@
 import time
 
 from checks import streams
-from checks.common import swarm, thread_label
+from checks.common import swarm, thread_label, exc_choice
 
 ID = 'C05'
 LEVEL = 'exploration'
@@ -24,7 +24,7 @@ SIZES = [1, 1, 2, 2, 3, 8]
 
 def _fail(rng, n):
     k = rng.choice([1, 1, 2, 3])  # several failing elements: the FIRST in stream order must reach the consumer, the others must not leak out
-    return {'idx': sorted(set(rng.randrange(max(1, n)) for _ in range(k))), 'exc': rng.choice(['ExcA', 'ExcB', 'ExcC', 'KeyError'])}
+    return {'idx': sorted(set(rng.randrange(max(1, n)) for _ in range(k))), 'exc': exc_choice(rng, ['ExcA', 'ExcB', 'ExcC', 'KeyError'])}
 
 
 def gen(rng, tier):
@@ -70,7 +70,7 @@ def gen(rng, tier):
     if rng.random() < 0.45 or 'stop' not in sc:
         site = rng.choice(['source', 'source', 'stage', 'stage', 'pre', 'stoprequested'])
         if site == 'source':
-            sc['src_fail'] = {'pos': rng.randrange(0, n + 1), 'exc': rng.choice(['ExcA', 'ExcB', 'ExcC', 'KeyError'])}
+            sc['src_fail'] = {'pos': rng.randrange(0, n + 1), 'exc': exc_choice(rng, ['ExcA', 'ExcB', 'ExcC', 'KeyError'])}
         elif site == 'stoprequested':
             sc['src_fail'] = {'pos': rng.randrange(0, n + 1), 'exc': 'StopRequested'}
         elif site == 'stage':
